@@ -7,6 +7,44 @@ import sys
 import vlib
 
 
+def arg_constants(cls, enc_args):
+    """Integer literals the protocol's encode() compares its arguments with (`oem1 == 67`): a dictionary for the input generators, so
+    that value-specific branches of an encoder are exercised whatever the random sample is.  Extracted from the source by ast."""
+    import ast
+    import textwrap
+    out = {}
+    try:
+        tree = ast.parse(textwrap.dedent(inspect.getsource(cls.encode)))
+    except Exception:  # noqa
+        return out
+    for node in ast.walk(tree):
+        if isinstance(node, ast.Compare) and len(node.ops) == 1 and len(node.comparators) == 1:
+            a, b = node.left, node.comparators[0]
+            for x, y in ((a, b), (b, a)):
+                if isinstance(x, ast.Name) and x.id in enc_args and isinstance(y, ast.Constant) and isinstance(y.value, int) \
+                        and not isinstance(y.value, bool):
+                    out.setdefault(x.id, set()).add(y.value)
+                    if isinstance(node.ops[0], (ast.Lt, ast.LtE, ast.Gt, ast.GtE)):
+                        out[x.id].update({y.value - 1, y.value + 1})
+    res = {k: sorted(v) for k, v in out.items()}
+    # conjunctions `a == 67 and b == 83`: the constants that belong together
+    together = []
+    for node in ast.walk(tree):
+        if isinstance(node, ast.BoolOp) and isinstance(node.op, ast.And):
+            d = {}
+            for v in node.values:
+                if isinstance(v, ast.Compare) and len(v.ops) == 1 and isinstance(v.ops[0], ast.Eq):
+                    a, b = v.left, v.comparators[0]
+                    for x, y in ((a, b), (b, a)):
+                        if isinstance(x, ast.Name) and x.id in enc_args and isinstance(y, ast.Constant) and isinstance(y.value, int):
+                            d[x.id] = y.value
+            if len(d) > 1 and d not in together:
+                together.append(d)
+    if together:
+        res['__together__'] = together
+    return res
+
+
 def engine_class(bursts):
     if not bursts:
         return 'none'
@@ -58,6 +96,7 @@ def all_protocols():
             enc_args=enc_args, enc_defaults=enc_defaults, irp=cls.irp,
             eclass=engine_class(fresh._bursts),
             has_params12=hasattr(cls, '_parameters1') or hasattr(cls, '_parameters2'),
+            arg_constants=arg_constants(cls, enc_args),
         )
         out.append(d)
     _cache['all'] = out
